@@ -140,7 +140,65 @@ def main():
                             fail("callback-fault-resume", method=name, kstep=kstep)
                     except Exception as e2:
                         fail("callback-fault-resume-raises", method=name, kstep=kstep, exc2=repr(e2.__cause__)[:60])
-    print(json.dumps(dict(cases=cases, failures=failures, bound="%d method/span configurations x dense on/off x every position k of a failing rhs call (RuntimeError-like, KeyboardInterrupt, ValueError) x resume x reset; callback faults at every step" % len(configs))))
+    # event-function faults at every position k (both directions, dense output on and off): the step whose events were being resolved is
+    # not recorded, its interpolant is not kept, the run resumes and finds the events
+    for span in ((0.0, 3.0), (0.0, -3.0)):
+        for dense in (True, False):
+            def count_calls():
+                cnt = [0]
+
+                def g(t, y, **kw):
+                    cnt[0] += 1
+                    return y[1] - 0.5
+                a = mk(I.RK45CKSolver, span, 0.1, dense, [0], None, Fault)
+                a.integrate(events=[g])
+                return cnt[0], np.asarray(a.t), [float(e.t) for e in a.events]
+            total, tref_e, evref = count_calls()
+            for k in range(1, total + 1, 1 if req.get("tier") == "thorough" else 3):
+                cnt = [0]
+
+                def g(t, y, cnt=cnt, k=k, **kw):
+                    cnt[0] += 1
+                    if cnt[0] == k:
+                        raise Fault("event function fault")
+                    return y[1] - 0.5
+                a = mk(I.RK45CKSolver, span, 0.1, dense, [0], None, Fault)
+                cases += 1
+                info = dict(span=span, dense=dense, k=k, N=total)
+                try:
+                    a.integrate(events=[g])
+                    fail("event-fault-not-raised", **info)
+                    continue
+                except E.FailedIntegration as e:
+                    if not isinstance(e.__cause__, Fault):
+                        fail("event-fault-cause-lost", cause=repr(e.__cause__)[:60], **info)
+                except Exception as e:
+                    fail("event-fault-wrong-exception", got=repr(e)[:60], **info)
+                    continue
+                t = np.asarray(a.t)
+                n = len(t)
+                if n > len(tref_e) or not np.array_equal(t, tref_e[:n]):
+                    fail("event-fault-prefix-not-consistent", n=n, **info)
+                sol = a._OdeSystem__sol
+                te = [float(x) for x in (sol.t_eval or [])]
+                if dense and (len(te) != n - 1 or sorted(te) != sorted(float(x) for x in t[1:])):
+                    fail("event-fault-dense-output-covers-other-steps", pieces=len(te), steps=n - 1, **info)
+                if not dense and te and not any(abs(x - float(t[-1])) < 1e-12 for x in te) and n > 1:
+                    fail("event-fault-kept-interpolants-do-not-end-at-the-current-time", **info)
+                try:
+                    a.integrate(events=[g])
+                    if abs(a.t[-1] - span[1]) > 1e-12:
+                        fail("event-fault-resume-does-not-reach-target", **info)
+                    ev_now = [float(e.t) for e in a.events]
+                    if len(ev_now) != len(evref) or any(abs(x - y) > 1e-6 for x, y in zip(ev_now, evref)):
+                        fail("event-fault-resume-events-differ", got=ev_now, want=evref, **info)
+                    if dense:
+                        te = [float(x) for x in a.sol.t_eval]
+                        if len(te) != len(a.t) - 1 or te != sorted(te):
+                            fail("event-fault-resume-dense-output-miscounted-or-unordered", pieces=len(te), steps=len(a.t) - 1, **info)
+                except Exception as e2:
+                    fail("event-fault-resume-raises", exc2=repr(e2)[:80], **info)
+    print(json.dumps(dict(cases=cases, failures=failures, bound="%d method/span configurations x dense on/off x every position k of a failing rhs call (RuntimeError-like, KeyboardInterrupt, ValueError) x resume x reset; callback faults at every step; event-function faults at every (third) position, both directions, dense on/off" % len(configs))))
 
 
 if __name__ == "__main__":
